@@ -1565,7 +1565,7 @@ class M_run_recurrent_subgraph(CoroBase):
 
         def havoc_and_remember(it, env):
             orig_havoc(it, env)
-            found, v = env.lookup('node_result')
+            found, v = it.lookup_local(env, 'node_result')
             it.st.ghost['ghost:prev_result'] = v
         sp._havoc = havoc_and_remember
         return [sp]
